@@ -25,9 +25,11 @@
 (* full key it was looked up for (res.used), and the returned value        *)
 (* res.value equals ResultSpec(call), a function of the call's base (= its *)
 (* arguments' VALUES: not of the tables, not of the memory layout of the   *)
-(* arguments); the argument objects of the call keep their version (not    *)
-(* written, unless documented as in-place), and an integrator's result is  *)
-(* a new heap object.                                                      *)
+(* arguments, not of the container - list, tuple, array - of a vector);    *)
+(* the argument objects of the call keep their version (not written,       *)
+(* unless documented as in-place), and an integrator's result is a new     *)
+(* heap object, for an epoch of zero duration too: in-place work on the    *)
+(* result leaves every argument at its version.                            *)
 (*                                                                         *)
 (* The design constants select the documented design ("full" keys, every   *)
 (* integrator normalises its arrays on entry, the uncertainty cache is     *)
@@ -44,13 +46,16 @@ CONSTANTS
     ProjKeyMode,  \* "full" | "no_from"      : _projection_cache key
     DbetaKeyMode, \* "full" | "len_only"     : _dbeta_cache key
     PartKeyMode,  \* "full" | "no_n"         : _part_cache key
-    EntryMode,    \* "copy_all" | "raw45"    : do four_pops/five_pops copy their density on entry
+    EntryMode,    \* "copy_all" | "raw45" | "late_copy": every integrator copies its density on entry; four_pops/five_pops do
+                  \*                                      not; or the copy is taken only after the zero-duration early return
     XXMode,       \* "contig" | "raw_td"     : is the grid made contiguous before it reaches a compiled kernel
     GodMode,      \* "object" | "address"    : Godambe.cache keyed on the function object or on its address
     DemesMode,    \* "pure" | "storeback"    : Demes.output stores mapped names into the event log
     PerturbMode,  \* "pure" | "rewrites_none": Misc.perturb_params replaces None entries of the caller's bound lists
     HashMode,     \* "ordered" | "set_order" : LowPass.compute_cov_dist builds its dict in pop_ids order or in set (string-hash) order
     SFSMode,      \* "copies" | "callers_list": Demes.SFS renames ancient samples in a copy of / in the caller's sampled_demes list
+    VectorMode,   \* "copies" | "callers_array": the closures over the nested parameters (LRT_adjust, score_stat, Wald_stat) put the
+                  \*                              trial values into a copy of p0, or into p0 itself when it already is a float64 array
     KernelMode,   \* "stateless" | "static_by_size": a compiled kernel recomputes the grid-derived arrays in every call, or
                   \*                                 keeps them in static storage and rebuilds them only when the grid SIZE changes
     MaxTable      \* state constraint: at most this many stored keys per table
@@ -89,7 +94,7 @@ PerturbB == {"perturb_params_none_bounds"}
 PerturbVB == {"perturb_params_array"}
 GodTransB == {"fim_A", "fim_B", "gim_A", "gim_B", "lrt_A", "lrt_B"}
 GodNamedB == {"fim_A_named", "fim_B_named"}
-GodB     == GodTransB \cup GodNamedB
+GodB0    == GodTransB \cup GodNamedB
 DemesFullB  == {"demes_output_X", "demes_output_Y", "demes_output_none"}
 DemesAgainB == {"demes_output_again_X", "demes_output_again_Y", "demes_output_again_none"}
 DemesB   == DemesFullB \cup DemesAgainB
@@ -102,7 +107,7 @@ DemesSFSB == {"demes_sfs_ancient", "demes_sfs_present", "from_demes_ancient"}   
 \*   <<base, dadi function, layout class, effect on the demes event log, bit-for-bit under layout changes>>
 \* layout classes: "n" contiguous only; "a3" array in {C, F, N}; "v3" vector in {C, S, N}; "x3" grid in {C, S, N};
 \*                 "ax" array in {C, F, N} x grid in {C, S}; "vv" two vectors, each in {C, S, N}
-ExtraTab == {
+ExtraTab0 == {
     <<"zengs_E_1d", "Spectrum.Zengs_E", "v3", "none", FALSE>>,
     <<"theta_L_1d", "Spectrum.theta_L", "v3", "none", FALSE>>,
     <<"combine_two_pops_3d", "Spectrum.combine_two_pops", "a3", "none", FALSE>>,
@@ -175,13 +180,88 @@ ExtraTab == {
     <<"pdf_biv_lognormal", "DFE.PDFs.biv_lognormal", "vv", "none", TRUE>>,
     <<"pdf_biv_ind_gamma", "DFE.PDFs.biv_ind_gamma", "vv", "none", TRUE>>,
     <<"pdf_biv_lognormal_py", "DFE.PDFs.biv_lognormal_py", "vv", "none", TRUE>> }
+
+\* ------------------------------------------------------------------ alphabet extension (round 5)
+\* (1) The paths that return WITHOUT doing the work.  Every integrator with an epoch of zero duration:
+\*       z0_c  T = 0, constant parameters          z0_td  T = 0, a function-valued size
+\*       zi_c  T = initial_t = 0.3, constant       zi_td  T = initial_t = 0.3, function-valued
+\*       z0_fr T = 0, first population frozen      allfr  T > 0, every population frozen (nothing is swept)
+\*     The property does not exempt them: the result is a fresh array, the arguments are unchanged, and in-place
+\*     work on the result leaves the arguments unchanged.
+IntFuncs  == <<"one_pop", "two_pops", "three_pops", "four_pops", "five_pops">>
+ZeroKinds == {"z0_c", "z0_td", "zi_c", "zi_td", "z0_fr"}
+ZeroDurB  == {IntFuncs[P] \o "_" \o k : P \in 1..5, k \in ZeroKinds} \cup {"one_pop_X_z0_c"}
+ZeroTab   == {<<IntFuncs[P] \o "_" \o k, "Integration." \o IntFuncs[P], IF P = 1 THEN "v3" ELSE "a3", "none", TRUE>> : P \in 1..5, k \in ZeroKinds}
+             \cup {<<IntFuncs[P] \o "_allfr", "Integration." \o IntFuncs[P], IF P = 1 THEN "v3" ELSE "a3",
+                     IF P = 1 THEN "none" ELSE "append1", TRUE>> : P \in 1..5}        \* (a frozen one_pop returns before it logs the epoch)
+             \cup {<<"one_pop_X_z0_c", "Integration.one_pop_X", "v3", "none", TRUE>>}
+IntZB     == {e[1] : e \in ZeroTab}
+\*     Degenerate arguments of the other functions: admixture proportions 0 / 1, projection to the same sizes, marginalising
+\*     over nothing, keeping every population, identity reorderings, folding a folded spectrum (refused), fold = 0.
+TrivTab == {
+    <<"phi_2D_to_3D_admix_f0", "PhiManip.phi_2D_to_3D_admix", "ax", "append1", FALSE>>,
+    <<"phi_2D_to_3D_admix_f1", "PhiManip.phi_2D_to_3D_admix", "ax", "append1", FALSE>>,
+    <<"phi_3D_to_4D_f0", "PhiManip.phi_3D_to_4D", "ax", "append1", FALSE>>,
+    <<"phi_2D_admix_1_into_2_f0", "PhiManip.phi_2D_admix_1_into_2", "ax", "append1", FALSE>>,
+    <<"reorder_pops_3d_identity", "PhiManip.reorder_pops", "ax", "append1", TRUE>>,
+    <<"filter_pops_3d_all", "PhiManip.filter_pops", "ax", "none", TRUE>>,
+    <<"project_2d_64_64_same", "Spectrum.project", "a3", "none", TRUE>>,
+    <<"fold_folded_2d", "Spectrum.fold", "a3", "none", TRUE>>,
+    <<"unfold_unfolded_2d", "Spectrum.unfold", "a3", "none", TRUE>>,
+    <<"marginalize_2d_none", "Spectrum.marginalize", "a3", "none", TRUE>>,
+    <<"reorder_fs_3d_identity", "Spectrum.reorder_pops", "a3", "none", TRUE>>,
+    <<"filter_3d_all", "Spectrum.filter_pops", "a3", "none", TRUE>>,
+    <<"apply_anc_state_misid_2d_p0", "Numerics.apply_anc_state_misid", "a3", "none", TRUE>>,
+    <<"perturb_params_fold0", "Misc.perturb_params", "n", "none", TRUE>> }
+\* (2) The CONTAINER of the vector arguments (parameter vector, bounds, index lists, grid-size list): the caller's
+\*     object may be a list, a tuple, a float64 array or an integer array; none of them may be written.
+Containers == {"list", "tuple", "f64", "i64"}
+NewC       == {"tuple", "f64", "i64"}             \* (the list variant of these calls is in the alphabet already)
+OptSites == {<<"optimize_log_A", "Inference.optimize_log">>, <<"optimize_A", "Inference.optimize">>,
+             <<"optimize_log_fmin_A", "Inference.optimize_log_fmin">>, <<"optimize_log_lbfgsb_A", "Inference.optimize_log_lbfgsb">>,
+             <<"optimize_lbfgsb_A", "Inference.optimize_lbfgsb">>, <<"opt_nlopt_A", "Inference.opt">>}
+OptCB  == {o[1] \o "_" \o c : o \in OptSites, c \in NewC}
+ObjCB  == {"object_func_A_" \o c : c \in NewC}
+ContTab == {<<o[1] \o "_" \o c, o[2], "n", "reset2", TRUE>> : o \in OptSites, c \in NewC}
+           \cup {<<"object_func_A_" \o c, "Inference._object_func", "n", "reset2", TRUE>> : c \in NewC}
+           \cup {<<"get_hess_quadratic_" \o c, "Godambe.get_hess", "n", "none", TRUE>> : c \in NewC}
+           \cup {<<"get_grad_quadratic_" \o c, "Godambe.get_grad", "n", "none", TRUE>> : c \in NewC}
+           \cup {<<"perturb_params_" \o c, "Misc.perturb_params", "n", "none", TRUE>> : c \in {"tuple", "i64"}}
+           \cup {<<"extrap_func_A_" \o c, "Numerics.make_extrap_func", "n", "reset2", TRUE>> : c \in NewC}
+           \cup {<<"project_2d_64_43_nstuple", "Spectrum.project", "n", "none", TRUE>>,
+                  <<"from_phi_2d_43_A_tuples", "Spectrum.from_phi", "n", "none", TRUE>>,
+                  <<"from_phi_inb_2d_42_arrays", "Spectrum.from_phi_inbreeding", "n", "none", TRUE>>,
+                  <<"from_data_dict_2d_43_tuples", "Spectrum.from_data_dict", "n", "none", TRUE>>,
+                  <<"demes_sfs_present_containers", "Demes.SFS", "n", "reset5", TRUE>>,
+                  <<"ms_command_containers", "Misc.ms_command", "n", "none", TRUE>>}
+\*     The uncertainty entry points: <<base, dadi function, the function object the memo key holds>>.
+\*       mn: multinom=True (the model has no theta parameter; the entry point wraps it in a closure made in the call)
+\*       th: multinom=False (theta is the explicit last parameter; FIM/GIM/get_godambe differentiate the caller's function
+\*           itself, LRT_adjust/score_stat/Wald_stat a closure over the nested parameters made in the call)
+\*       lin / log: derivatives in the parameters or in their logarithms
+GodCTab ==
+    {<<e[1] \o "_" \o th \o "_" \o sc \o "_" \o c, e[2], IF th = "th" THEN "named" ELSE "t">> :
+        e \in {<<"cfim", "Godambe.FIM_uncert">>, <<"cgim", "Godambe.GIM_uncert">>}, th \in {"mn", "th"}, sc \in {"lin", "log"}, c \in Containers}
+    \cup {<<"cgod_th_" \o sc \o "_" \o c, "Godambe.get_godambe", "named">> : sc \in {"lin", "log"}, c \in Containers}
+    \cup {<<e[1] \o "_" \o th \o "_lin_" \o c, e[2], "t">> :
+        e \in {<<"clrt", "Godambe.LRT_adjust">>, <<"cscore", "Godambe.score_stat">>, <<"cwald", "Godambe.Wald_stat">>}, th \in {"mn", "th"}, c \in Containers}
+GodCB == {e[1] : e \in GodCTab}
+\* (with multinom=True p0 is rebuilt as a list before the closure sees it; a list, tuple or integer array is converted)
+NestedThF64 == {e \o "_th_lin_f64" : e \in {"clrt", "cscore", "cwald"}}
+GodCRow(b) == CHOOSE e \in GodCTab : e[1] = b
+\* calls that only vary the container of another call of the alphabet: left out of the exhaustive 2-call graph (their
+\* footprint and bookkeeping duplicate the list variant); they are in the 1-call graph, the cover and the random histories
+ContainerB == GodCB \cup {e[1] : e \in ContTab}
+
+ExtraTab == ExtraTab0 \cup ZeroTab \cup TrivTab \cup ContTab
 ExtraB == {e[1] : e \in ExtraTab}
+GodB   == GodB0 \cup GodCB
 ExtraRow(b) == CHOOSE e \in ExtraTab : e[1] = b
 ExtraLay(b) == IF b \in ExtraB THEN ExtraRow(b)[3] ELSE ""
-OptB == {"optimize_log_A", "optimize_A", "optimize_log_fmin_A", "optimize_log_lbfgsb_A", "optimize_lbfgsb_A", "opt_nlopt_A"}   \* (an optimiser run evaluates the objective at least once)
+OptB == {"optimize_log_A", "optimize_A", "optimize_log_fmin_A", "optimize_log_lbfgsb_A", "optimize_lbfgsb_A", "opt_nlopt_A"} \cup OptCB   \* (an optimiser run evaluates the objective at least once)
 LrtB == {"lrt_A", "lrt_B"}         \* differentiate an internal closure over the model: a new function object in every call
 
-AllBases == ExtraB \cup ProjectB \cup Stat1B \cup StatNB \cup DataDictB \cup FromPhi1B \cup FromPhiNB \cup Inb1B \cup InbNB \cup NumB
+AllBases == ExtraB \cup GodCB \cup ProjectB \cup Stat1B \cup StatNB \cup DataDictB \cup FromPhi1B \cup FromPhiNB \cup Inb1B \cup InbNB \cup NumB
             \cup LowPassB \cup IntB \cup PhiXB \cup Phim1B \cup PhimNB \cup LikeB \cup ObjB \cup PerturbB \cup PerturbVB
             \cup GodB \cup DemesB \cup LowPassFuncB \cup DemesSFSB
 
@@ -239,9 +319,10 @@ Site(b) ==
       [] b \in {"demes_sfs_ancient", "demes_sfs_present"} -> "Demes.SFS"
       [] b = "from_demes_ancient" -> "Spectrum.from_demes"
       [] b \in ExtraB -> ExtraRow(b)[2]
+      [] b \in GodCB -> GodCRow(b)[2]
       [] OTHER -> "?"
 
-IsIntegrator(b) == b \in IntB \cup {"one_pop_X_c"}
+IsIntegrator(b) == b \in IntB \cup IntZB \cup {"one_pop_X_c"}
 
 \* array arguments: which memory layouts the alphabet offers for a base
 \*   lay = layout of the density / spectrum / vector, xl = layout of the grid
@@ -286,7 +367,7 @@ Needs(b) ==
       [] b \in {"project_1d_6_4", "project_1d_6_4_folded", "project_2d_64_44", "lowpass_projmat_6_4"} -> [Z EXCEPT !.proj = ProjK(4, 6, 0..6)]
       [] b = "project_2d_64_43" -> [Z EXCEPT !.proj = ProjK(4, 6, 0..6) \cup ProjK(3, 4, 0..4)]
       [] b \in {"from_data_dict_1d_4", "from_data_dict_1d_4_unpol"} -> [Z EXCEPT !.proj = DDK(4, DDA)]
-      [] b = "from_data_dict_2d_43" -> [Z EXCEPT !.proj = DDK(4, DDA) \cup DDK(3, DDB)]
+      [] b \in {"from_data_dict_2d_43", "from_data_dict_2d_43_tuples"} -> [Z EXCEPT !.proj = DDK(4, DDA) \cup DDK(3, DDB)]
       [] b = "cached_projection_4_6_3" -> [Z EXCEPT !.proj = {<<4, 6, 3>>}]
       [] b \in {"from_phi_2d_43_A", "from_phi_2d_34_A"} -> [Z EXCEPT !.dbeta = {<<4, "A8">>, <<3, "A8">>}]
       [] b = "from_phi_2d_43_B" -> [Z EXCEPT !.dbeta = {<<4, "B8">>, <<3, "B8">>}]
@@ -294,7 +375,7 @@ Needs(b) ==
       [] b \in {"from_phi_2d_22_A6", "from_phi_4d_2222", "from_phi_5d_22222"} -> [Z EXCEPT !.dbeta = {<<2, "A6">>}]
       [] b = "from_phi_inb_1d_4" -> [Z EXCEPT !.precalc = PartK(0..4, 2), !.bb = BBK(GridTags("A7", "3/10", 7))]
       [] b = "from_phi_inb_1d_6" -> [Z EXCEPT !.precalc = PartK(0..6, 3), !.bb = BBK(GridTags("A7", "3/10", 7))]
-      [] b = "from_phi_inb_2d_42" -> [Z EXCEPT !.precalc = PartK(0..4, 2) \cup PartK(0..2, 1), !.bb = BBK(GridTags("A7", "3/10", 7))]
+      [] b \in {"from_phi_inb_2d_42", "from_phi_inb_2d_42_arrays"} -> [Z EXCEPT !.precalc = PartK(0..4, 2) \cup PartK(0..2, 1), !.bb = BBK(GridTags("A7", "3/10", 7))]
       [] b = "cached_part_4_3" -> [Z EXCEPT !.part = PartK({4}, 3)]
       [] b = "cached_part_3_3" -> [Z EXCEPT !.part = PartK({3}, 3)]
       [] b = "cached_part_precalc_4_3" -> [Z EXCEPT !.precalc = PartK({4}, 3)]
@@ -312,11 +393,11 @@ Needs(b) ==
       \* partitions of 6), projection matrices 6 -> 4, calling-error matrices (genotype partitions of 4); model sampled with ns = nseq
       [] b = "lowpass_func_2d" -> [Z EXCEPT !.proj = ProjK(4, 6, 0..6), !.dbeta = {<<6, "A8">>},
                                             !.part = PartK(0..6, 3) \cup PartK(0..4, 2), !.multinom = MultK(0..6, 3) \cup MultK(0..4, 2)]
-      [] b \in {"demes_sfs_ancient", "demes_sfs_present"} -> [Z EXCEPT !.dbeta = {<<4, "A8">>, <<2, "A8">>}]
+      [] b \in {"demes_sfs_ancient", "demes_sfs_present", "demes_sfs_present_containers"} -> [Z EXCEPT !.dbeta = {<<4, "A8">>, <<2, "A8">>}]
       [] b = "from_demes_ancient" -> [Z EXCEPT !.dbeta = {<<n, g>> : n \in {4, 2}, g \in {"A5", "A6", "A8"}}]
       [] b = "from_phi_inb_3d_422" -> [Z EXCEPT !.precalc = PartK(0..4, 2) \cup PartK(0..2, 1), !.bb = BBK(GridTags("A7", "3/10", 7))]
-      [] b = "from_phi_2d_43_A_containers" -> [Z EXCEPT !.dbeta = {<<4, "A8">>, <<3, "A8">>}]
-      [] b = "project_2d_64_43_nsarray" -> [Z EXCEPT !.proj = ProjK(4, 6, 0..6) \cup ProjK(3, 4, 0..4)]
+      [] b \in {"from_phi_2d_43_A_containers", "from_phi_2d_43_A_tuples"} -> [Z EXCEPT !.dbeta = {<<4, "A8">>, <<3, "A8">>}]
+      [] b \in {"project_2d_64_43_nsarray", "project_2d_64_43_nstuple"} -> [Z EXCEPT !.proj = ProjK(4, 6, 0..6) \cup ProjK(3, 4, 0..4)]
       [] b = "lowpass_no_call_6" -> [Z EXCEPT !.part = PartK(0..6, 3), !.multinom = MultK(0..6, 3)]
       [] OTHER -> Z
 
@@ -326,9 +407,10 @@ Needs(b) ==
 \*  * Godambe.cache: the full key of a model spectrum is (function object, stencil point).  A model function written
 \*    as a lambda at the call site is a NEW function object in every call ("t<k>" for the k-th call of the
 \*    history); a module-level function is the same object in every call ("named").
-ModelOf(b) == IF b \in {"fim_A", "gim_A", "fim_A_named", "lrt_A"} THEN "A" ELSE "B"
-GodNeed(b, k) == IF b \in {"fim_A", "fim_B", "gim_A", "gim_B", "lrt_A", "lrt_B"} THEN {<<ModelOf(b), "t" \o ToString(k)>>}
-                 ELSE IF b \in {"fim_A_named", "fim_B_named"} THEN {<<ModelOf(b), "named">>} ELSE {}
+ModelOf(b) == IF b \in {"fim_A", "gim_A", "fim_A_named", "lrt_A"} \cup GodCB THEN "A" ELSE "B"
+GodTransient(b) == b \in {"fim_A", "fim_B", "gim_A", "gim_B", "lrt_A", "lrt_B"} \/ (b \in GodCB /\ GodCRow(b)[3] = "t")
+GodNeed(b, k) == IF GodTransient(b) THEN {<<ModelOf(b), "t" \o ToString(k)>>}
+                 ELSE IF b \in {"fim_A_named", "fim_B_named"} \cup GodCB THEN {<<ModelOf(b), "named">>} ELSE {}
 \* the effective footprint of base b as k-th call, given the stored keys of the precalc table
 NeedEff(b, k, prePresent(_)) ==
     LET n0 == Needs(b)
@@ -337,20 +419,21 @@ NeedEff(b, k, prePresent(_)) ==
                   !.part = @ \cup missing,
                   !.multinom = @ \cup UNION {MultK({q[1]}, q[2]) : q \in missing}]
 \* the functions documented as "Alters phi in place": their density argument is exempt from ArgumentsUnchanged
-DocumentedInPlace == {"phi_2D_admix_1_into_2", "phi_3D_admix_1_and_2_into_3", "phi_2D_admix_2_into_1", "phi_3D_admix_1_and_3_into_2",
+DocumentedInPlace == {"phi_2D_admix_1_into_2", "phi_2D_admix_1_into_2_f0", "phi_3D_admix_1_and_2_into_3", "phi_2D_admix_2_into_1", "phi_3D_admix_1_and_3_into_2",
                       "phi_3D_admix_2_and_3_into_1", "phi_4D_admix_into_1", "phi_4D_admix_into_2", "phi_4D_admix_into_3", "phi_4D_admix_into_4",
                       "phi_5D_admix_into_1", "phi_5D_admix_into_2", "phi_5D_admix_into_3", "phi_5D_admix_into_4", "phi_5D_admix_into_5"}
 
 \* Inference._counter: objective evaluations of the call;  Inference._theta_store: keys it holds after the call
 \* (for the optimisers OptB the number is "at least 1": the model uses 1, the trace spec demands >= 1)
-Evals(b) == CASE b \in {"object_func_A", "object_func_B_store"} \cup OptB -> 1 [] b = "optimize_grid_A" -> 6 [] OTHER -> 0
+Evals(b) == CASE b \in {"object_func_A", "object_func_B_store"} \cup ObjCB \cup OptB -> 1 [] b = "optimize_grid_A" -> 6 [] OTHER -> 0
 ThetaAfter(b, th) == CASE b = "object_func_B_store" -> th \cup {"B:p0"}
                        [] b = "optimize_grid_A" -> {"A:g1", "A:g2", "A:g3", "A:g4", "A:g5", "A:g6"}    \* the table is replaced
                        [] OTHER -> th
 
 \* the demes event log: <<"append", k>>, <<"reset", k>> (phi_1D starts a new log; k events afterwards), <<"model", k>>, <<"none">>
 LogEffect(b) ==
-    IF b \in ExtraB THEN (CASE ExtraRow(b)[4] = "append1" -> <<"append", 1>> [] ExtraRow(b)[4] = "reset2" -> <<"reset", 2>> [] OTHER -> <<"none">>) ELSE
+    IF b \in ExtraB THEN (CASE ExtraRow(b)[4] = "append1" -> <<"append", 1>> [] ExtraRow(b)[4] = "reset2" -> <<"reset", 2>>
+                            [] ExtraRow(b)[4] = "reset5" -> <<"reset", 5>> [] OTHER -> <<"none">>) ELSE
     CASE b \in IntB \cup Phim1B \cup PhimNB -> <<"append", 1>>
       [] b \in PhiXB -> <<"reset", 1>>
       [] b \in ObjB \cup GodB -> <<"reset", 2>>          \* the model function: phi_1D ; one_pop
@@ -378,12 +461,12 @@ KernelBases == {b \in AllBases : KernelGrid(b)}
 NeedsF == [b \in AllBases |-> Needs(b)]
 SiteF  == [b \in AllBases |-> Site(b)]
 AttrF  == [b \in AllBases |-> [evals |-> Evals(b), log |-> LogEffect(b), integ |-> IsIntegrator(b),
-                                args |-> (IF PhiLays(b) # LayC \/ b \in IntB \cup PerturbB \cup LowPassFuncB \cup DemesSFSB \cup ExtraB THEN {1} ELSE {}) \cup (IF XLays(b) # LayC THEN {2} ELSE {}),
+                                args |-> (IF PhiLays(b) # LayC \/ b \in IntB \cup PerturbB \cup LowPassFuncB \cup DemesSFSB \cup ExtraB \cup GodCB THEN {1} ELSE {}) \cup (IF XLays(b) # LayC THEN {2} ELSE {}),
                                 god |-> b \in GodB]]
 
 \* (left to the 2-call graph: calls whose footprint / bookkeeping duplicates another memo-relevant base)
-MemoSkip == (OptB \ {"optimize_log_A"}) \cup {"from_phi_2d_43_A_containers", "project_2d_64_43_nsarray"}
-MemoBases == ({b \in AllBases : Needs(b) # Z \/ b \in GodB \/ Evals(b) > 0 \/ b \in DemesB} \ MemoSkip) \cup {"part_4_3", "four_pops_c", "one_pop_td", "phi_1D", "perturb_params_none_bounds", "lowpass_cov_dist_2pop",
+MemoSkip == ((OptB \ {"optimize_log_A"}) \cup {"from_phi_2d_43_A_containers", "project_2d_64_43_nsarray"}) \ ContainerB
+MemoBases == ({b \in AllBases : Needs(b) # Z \/ b \in GodB \/ Evals(b) > 0 \/ b \in DemesB} \ (MemoSkip \cup ContainerB)) \cup {"part_4_3", "four_pops_c", "one_pop_td", "phi_1D", "perturb_params_none_bounds", "lowpass_cov_dist_2pop",
                   "one_pop_td_B", "two_pops_td", "two_pops_td_B"}
 \* one representative of every kind of table interaction (for the deeper exhaustive run)
 CoreBases == {"project_1d_8_4", "project_1d_6_4", "project_2d_64_43", "from_data_dict_1d_4", "lowpass_projmat_6_4", "cached_projection_4_6_3",
@@ -403,7 +486,7 @@ Bases == CASE BaseSel = "memo" -> MemoBases
            [] BaseSel = "graph" -> MemoBases \cup KernelBases \cup MemoSkip
            [] BaseSel = "core" -> CoreBases
            [] BaseSel = "god" -> {"fim_A", "fim_B", "fim_A_named"}
-           [] BaseSel = "godall" -> GodB
+           [] BaseSel = "godall" -> GodB0
            [] OTHER -> AllBases
 CallOK(c) == /\ c.lay \in PhiLays(c.b) /\ c.xl \in XLays(c.b)
              /\ (LaySel = "C" => c.lay = "C" /\ c.xl = "C")
@@ -447,7 +530,9 @@ TableAfter(t, need, adr, b) ==
         IF k \in DOMAIN tabs[t] THEN tabs[t][k]
         ELSE [fk |-> First(t, CHOOSE fk \in need : Key(t, fk, adr) = k, need, adr), by |-> b]]
 
-Normalises(b) == EntryMode = "copy_all" \/ SiteF[b] \notin {"Integration.four_pops", "Integration.five_pops"}
+Normalises(b) == EntryMode # "raw45" \/ SiteF[b] \notin {"Integration.four_pops", "Integration.five_pops"}
+\* an epoch of zero duration returns before any work: with the copy taken late, what it returns is the caller's array
+ReturnsInput(b) == EntryMode = "late_copy" /\ b \in ZeroDurB
 KernelSeesC(c) == /\ (Normalises(c.b) \/ c.lay = "C")
                   /\ (XXMode = "contig" \/ ~KernelGrid(c.b) \/ c.xl = "C")
 
@@ -479,18 +564,22 @@ Call(c) ==
                inplace == \/ (AttrF[b].integ /\ ~Normalises(b)) \/ (b \in PerturbB /\ PerturbMode = "rewrites_none")
                           \/ b \in DocumentedInPlace
                           \/ (b \in {"demes_sfs_ancient", "from_demes_ancient"} /\ SFSMode = "callers_list")
+                          \/ (b \in NestedThF64 /\ VectorMode = "callers_array")
                args == AttrF[b].args
                value == IF b \in DemesB THEN DemesValue(b)
                         ELSE IF AttrF[b].integ /\ ~KernelSeesC(c) THEN <<"garbage", b, c.lay, c.xl>>
                         ELSE IF hs = "labels_swapped" THEN <<"coverage_of_the_other_population", b>>
                         ELSE IF KernelMode = "static_by_size" /\ SameSizeOtherGrid(b) THEN <<"stale_grid_spacings", b>>
                         ELSE <<"F", b>>
+               result == IF (inplace /\ AttrF[b].integ) \/ ReturnsInput(b) THEN 1 ELSE 3
+               \* version: writes made by the call;  wversion: after the caller's follow-up, in-place work on the RESULT object
            IN /\ heap' = [id \in args \cup {3} |->
-                            IF id = 1 THEN [role |-> "array", layout |-> c.lay, version |-> IF inplace THEN 1 ELSE 0]
-                            ELSE IF id = 2 THEN [role |-> "grid", layout |-> c.xl, version |-> 0]
-                            ELSE [role |-> "result", layout |-> "C", version |-> 0]]
+                            LET w == IF id = result THEN 1 ELSE 0 IN
+                            IF id = 1 THEN [role |-> "array", layout |-> c.lay, version |-> IF inplace THEN 1 ELSE 0, wversion |-> (IF inplace THEN 1 ELSE 0) + w]
+                            ELSE IF id = 2 THEN [role |-> "grid", layout |-> c.xl, version |-> 0, wversion |-> w]
+                            ELSE [role |-> "result", layout |-> "C", version |-> 0, wversion |-> w]]
               /\ res' = [call |-> CallId(c), b |-> b, used |-> used, value |-> value,
-                         result |-> IF inplace /\ AttrF[b].integ THEN 1 ELSE 3, args |-> args, pairs |-> pairs]
+                         result |-> result, args |-> args, pairs |-> pairs]
     /\ counter' = counter + AttrF[b].evals
     /\ theta' = ThetaAfter(b, theta)
     /\ dlog' = LET allhit == AttrF[b].god /\ \A fk \in GodNeed(b, Len(hist) + 1) : \E adr \in Addr \cup {"named"} : Present("godambe", fk, adr)
@@ -535,7 +624,8 @@ ResultIndependentOfHashSeed == res.b # "" => res.value[1] # "coverage_of_the_oth
 LayoutIndependent          == (res.b # "" /\ res.b \notin DemesB /\ res.value[1] \notin {"coverage_of_the_other_population", "stale_grid_spacings"})
                                  => res.value = ResultSpec(res.b).value
 ArgumentsUnchanged         == res.b # "" => \A id \in res.args : heap[id].version = 0 \/ (id = 1 /\ res.b \in DocumentedInPlace)
-ResultIsFresh              == (res.b # "" /\ AttrF[res.b].integ) => res.result \notin res.args
+ResultIsFresh              == (res.b # "" /\ AttrF[res.b].integ) => /\ res.result \notin res.args
+                                                                        /\ \A id \in res.args : heap[id].wversion = heap[id].version
 \* the inductive reason: every stored value is the value of its own stored key's full key
 TablesSound == \A t \in Tables : \A k \in DOMAIN tabs[t] : \A adr \in Addr \cup {"named"} :
                    (t # "godambe" \/ GodMode = "object") => Key(t, tabs[t][k].fk, adr) = k
